@@ -1,8 +1,10 @@
 //! tfh — correspondence harness for the trustfall Coq development.
 //! usage: tfh <subcommand> --seed S --n N --out DIR
 mod c01;
+mod c06;
 mod c07;
 mod c08;
+mod c17;
 mod coq;
 mod engine;
 mod irprint;
@@ -57,9 +59,30 @@ fn main() {
             c07::run(args.seed, args.n, args.rest.iter().any(|x| x == "--oracle-only"), &mut o);
             o.finish();
         }
+        "c01" => {
+            // Exec model vs interpret_ir (tie) and Sem specification vs interpret_ir (oracle)
+            let mut o = out::Out::new(&args.out, "From TF Require Import Run.", 40);
+            c01::run(args.seed, args.n, &mut o, true, 3);
+            o.finish();
+        }
+        "c06" => {
+            let mut o = out::Out::new(&args.out, "From TF Require Import Values Show Cand.", 1500);
+            c06::run(args.seed, args.n, args.rest.iter().any(|x| x == "--oracle-only"), &mut o);
+            o.finish();
+        }
         "c08" => {
             let mut o = out::Out::new(&args.out, "From TF Require Import Values Show.", 1500);
             c08::run(args.seed, args.n, &mut o);
+            o.finish();
+        }
+        "c17" => {
+            let mut o = out::Out::new(&args.out, "From TF Require Import Values Show Ty.", 1500);
+            c17::run(args.seed, args.n, &mut o);
+            o.finish();
+        }
+        "c16ty" => {
+            let mut o = out::Out::new(&args.out, "From TF Require Import Values Show Ty.", 1500);
+            c17::run_c16ty(args.seed, args.n, &mut o);
             o.finish();
         }
         other => {
